@@ -1105,6 +1105,30 @@ func propC14(r *Run) {
 			h.alts = cands[1:]
 			hists = append(hists, h)
 		}
+		// a secondary FILE whose raw bytes are the text of a literal argument (`@acgt`): the two
+		// invocations hash the same bytes but mean different things (repaired defect F35: the file
+		// "does not contain a sequence" error was built and dropped, the empty result cached)
+		if cmd.name == "insert" || cmd.name == "infix" || cmd.name == "search" {
+			for i, p := range cmd.pos {
+				if p.kind != "file" {
+					continue
+				}
+				var cands []cliHist
+				for k := 0; k < nCand; k++ {
+					lit := "@" + []string{"acgt", "ACGTAC", "ggatcc"}[k%3]
+					fb := bases[k].clone()
+					fb.pos[i] = nil
+					fb.sec[i] = inHex([]byte(lit))
+					lb := bases[k].clone()
+					lb.pos[i] = []string{lit}
+					delete(lb.sec, i)
+					cands = append(cands, histOf("sweep/literal-vs-file", fb.run(), lb.run(), fb.run(), lb.run()))
+				}
+				h := cands[0]
+				h.alts = cands[1:]
+				hists = append(hists, h)
+			}
+		}
 		if cmd.name == "define" {
 			for _, pr := range [][2]string{{"join(1..3,7..9)", "order(1..3,7..9)"}, {"6", "5^6"},
 				{"complement(join(1..3,7..9))", "complement(order(1..3,7..9))"}, {"complement(6)", "complement(5^6)"}} {
